@@ -49,6 +49,28 @@ CHECKS["C06"] = dict(
     technique="Coq proof (argmax + sign analysis of the stencil, linearity) + certificate correspondence",
     design="4/C06")
 
+CHECKS["C12"] = dict(
+    text="Theorems about the same step model: rotating tables, wall data and previous field by one circumferential cell "
+         "rotates every solution by one cell, and (with uniqueness from the maximum principle) the rotated problem has no "
+         "other solution; the 1D solution copied to every ray solves the 2D step for axisymmetric data, the 2D solution "
+         "copied to every plane solves the 3D step for axially uniform data; superposition for fixed tables; the flattened "
+         "dof numbering is a bijection.  Tied by the per-step certificate on reduced abstractions (slice coordinates are part "
+         "of the compared wall data) and by paired real solves.",
+    note="Trusted: as C02.  Equivariance for temperature-dependent tables assumes ghost-consistent tables (H2); rotation "
+         "by s cells is the s-fold iterate of the proved one-cell statement.",
+    technique="Coq proof (index map on ghosted columns, congruence of the stencil, uniqueness) + certificate + metamorphic solves",
+    design="4/C12")
+CHECKS["C13"] = dict(
+    text="Proved for the model: in steady mode with constant properties the half-node radial heat flow is the same "
+         "through every half node, which gives the discrete profile in closed form for every wall pairing; a steady-mode "
+         "solution is a fixed point of every transient step and every transient step is non-expansive towards it (max "
+         "norm).  The check compares the implementation's steady solve with that closed form in exact rationals for all "
+         "17 well-posed pairings, and validates the distance to the logarithmic profile and long-time convergence numerically.",
+    note="partial: closeness of the discrete profile to the logarithmic one (second order inside, first-order dr/2r wall "
+         "factor) and strict long-time convergence are validated on the implementation, not proved.",
+    technique="Coq proof (induction along the radius, linearity + maximum principle) + certificate + exact closed-form oracle",
+    design="4/C13")
+
 NOT_YET = {}
 
 def main():
